@@ -327,4 +327,4 @@ def run(chk):
     from . import c14
     c14.rule_prefix_algebra(chk, "C07.14")
     c14.rule_last_mount_wins(chk, "C07.15")
-    X.rule_prefix_tests_at_boundary(chk, "C07.16")
+    X.rule_prefix_tests_at_boundary(chk, "C07.16", all_stores=True)
